@@ -138,6 +138,43 @@ fn f64_of(line: &str) -> String {
     }
 }
 
+/// End to end: the real macro-generated registry of `hx-sort-e2e`, listed by the
+/// real `Divan::main()` (`--list --sort <attr>` / `--sortr <attr>`) in a child
+/// process.  Case: `<attr> <rev>`.  Output: `<registry items> => <depth:name ...>`.
+fn e2e(line: &str) -> String {
+    let t = hxlib::toks(line);
+    let exe = std::env::current_exe().expect("exe").with_file_name("hx-sort-e2e");
+    let run = |args: &[&str]| -> String {
+        let out = std::process::Command::new(&exe).args(args).output().expect("spawn hx-sort-e2e");
+        if !out.status.success() {
+            panic!("child failed: {}", String::from_utf8_lossy(&out.stderr));
+        }
+        String::from_utf8(out.stdout).expect("utf8")
+    };
+    let items = run(&["describe"]).trim().to_string();
+    let flag = if t[1] == "1" { "--sortr" } else { "--sort" };
+    let listing = run(&["--list", flag, t[0]]);
+    let mut rows = vec![];
+    for l in listing.lines() {
+        if l.is_empty() {
+            continue;
+        }
+        let chars: Vec<char> = l.chars().collect();
+        let mut depth = 0;
+        let mut start = 0;
+        for i in 0..chars.len().saturating_sub(1) {
+            if chars[i] == '\u{2500}' && chars[i + 1] == ' ' {
+                depth = (i + 2) / 3;
+                start = i + 2;
+                break;
+            }
+        }
+        let name: String = chars[start..].iter().collect();
+        rows.push(format!("{}:{}", depth, enc2(&name)));
+    }
+    format!("{} => {}", items, rows.join(" "))
+}
+
 fn dispatch(mode: &str, line: &str) -> String {
     match mode {
         "nat" => nat(line),
@@ -145,6 +182,7 @@ fn dispatch(mode: &str, line: &str) -> String {
         "sort" | "wsort" => sort(line),
         "f64" => f64_of(line),
         "tree" => tree::tree(line),
+        "e2e" => e2e(line),
         _ => panic!("unknown mode {mode}"),
     }
 }
